@@ -33,7 +33,7 @@ func (p *propC16) Assumptions() []string {
 	}
 }
 func (p *propC16) ProbeNames() []string {
-	return []string{"unknown message with fields", "unlisted field in known message", "failure mid-record", "failure at record boundary", "grammar error injected", "logger lines > 0", "corpus stream", "lists checked on success", "lists checked on failure"}
+	return []string{"unknown message with fields", "unlisted field in known message", "failure mid-record", "failure at record boundary", "grammar error injected", "logger lines > 0", "corpus stream", "lists checked on success", "lists checked on failure", "lists checked per file of a chain"}
 }
 
 var optSets = [][]string{
@@ -55,6 +55,9 @@ func (p *propC16) Gen(idx int) *Scenario {
 	r := NewRng(p.seed, "C16", idx)
 	sc := &Scenario{V: 1, Property: "C16", Engine: "rx", Seed: p.seed, Index: idx, Params: map[string]string{}}
 	plan := genPlan(r, false, true)
+	if idx%8 == 5 {
+		return p.genChain(r, sc, plan)
+	}
 	var ops []Op
 	if len(p.corpus) > 0 && r.Chance(1, 10) {
 		e := p.corpus[r.Intn(len(p.corpus))]
@@ -210,6 +213,9 @@ func (p *propC16) Check(sc *Scenario, st *Stats) []Violation {
 	var vs []Violation
 	bad := func(class, format string, a ...interface{}) {
 		vs = append(vs, Violation{Property: "C16", Class: "C16/" + class, Detail: fmt.Sprintf(format, a...)})
+	}
+	if sc.Family == "chain" {
+		return p.checkChain(sc, st)
 	}
 	if len(sc.Media) == 0 || sc.Media[0].Records == nil || len(sc.Tasks) < 2 {
 		return nil
@@ -417,3 +423,133 @@ func (p *propC16) Check(sc *Scenario, st *Stats) []Violation {
 // applyCutForParse returns the bytes as they are (the parser needs the whole
 // frame to locate records; the cut only limits what the reader serves).
 func applyCutForParse(b []byte) []byte { return b }
+
+// ---- chained family: the options across the files of one DecodeChained call ----
+
+func (p *propC16) genChain(r *Rng, sc *Scenario, plan ReadPlan) *Scenario {
+	sc.Family = "chain"
+	n := r.Range(2, 4)
+	var ids []string
+	for i := 0; i < n; i++ {
+		ft := supportedFileTypes[r.Intn(len(supportedFileTypes))]
+		rs := genStream(r, StreamOpts{FT: ft, NData: r.Range(1, 12), Arch: 2, Unknown: r.Chance(3, 4), Dev: r.Chance(1, 3), Compressed: r.Chance(1, 3), CompNoRef: true, Unhosted: true, MaxFields: 5, Hdr14: r.Bool()})
+		if r.Chance(1, 2) {
+			g := unknownGlobal(r)
+			l := byte(r.Intn(16))
+			rs.Ops = append(rs.Ops, Op{Def: &DefOp{Local: l, Arch: "le", Global: g, Fields: [][3]int{{1, 2, 0x84}}}})
+			for k := r.Range(1, 3); k > 0; k-- {
+				rs.Ops = append(rs.Ops, Op{Data: &DataOp{Local: l, Bytes: hexs(r.Bytes(2))}})
+			}
+		}
+		id := "f" + itoa(i)
+		sc.Media = append(sc.Media, Medium{ID: id, Records: rs})
+		ids = append(ids, id)
+	}
+	sc.Media = append(sc.Media, Medium{ID: "m0", Chain: ids})
+	sc.Params["frames"] = itoa(n)
+	for i, o := range optSets {
+		sc.Tasks = append(sc.Tasks, Task{ID: i, Call: "DecodeChained", In: "m0", Opts: o, Read: plan})
+	}
+	return sc
+}
+
+func (p *propC16) checkChain(sc *Scenario, st *Stats) []Violation {
+	var vs []Violation
+	bad := func(class, format string, a ...interface{}) {
+		vs = append(vs, Violation{Property: "C16", Class: "C16/chain/" + class, Detail: fmt.Sprintf(format, a...)})
+	}
+	var streams []*RecStream
+	for i := range sc.Media {
+		if sc.Media[i].Records != nil {
+			if !streamSane(sc.Media[i].Records.Ops) {
+				return nil
+			}
+			streams = append(streams, sc.Media[i].Records)
+		}
+	}
+	if len(streams) < 2 || len(sc.Tasks) < 2 {
+		return nil
+	}
+	var models []*ModelOut
+	for _, rs := range streams {
+		mo := interpret(rs.Ops)
+		if mo.ErrOp >= 0 {
+			return nil
+		}
+		models = append(models, mo)
+	}
+	media := sc.buildMedia()
+	var res []*Result
+	for i := range sc.Tasks {
+		r := runTask(&sc.Tasks[i], media, nil, nil)
+		st.Observe(r)
+		if r.Panic != "" {
+			bad("panic", "DecodeChained panicked with options %v: %s", sc.Tasks[i].Opts, r.Panic)
+			return vs
+		}
+		res = append(res, r)
+	}
+	st.Nontrivial++
+	st.Key("chain", len(streams))
+	base := res[0]
+	if base.ErrClass != "nil" || base.NFiles != len(streams) {
+		bad("rejects-valid-chain", "DecodeChained: %d files, error %q for %d valid frames", base.NFiles, base.Err, len(streams))
+		return vs
+	}
+	for i, r := range res {
+		on := strings.Join(sc.Tasks[i].Opts, "+")
+		if r.ErrClass != base.ErrClass || r.NFiles != base.NFiles || r.Delivered != base.Delivered {
+			bad("result-differs", "options %s: %d files, error %q, %d bytes; option-free: %d files, %q, %d bytes", on, r.NFiles, r.Err, r.Delivered, base.NFiles, base.Err, base.Delivered)
+			return vs
+		}
+		for fi := range r.Dumps {
+			if d := firstDiff(stripUnknownLines(r.Dumps[fi]), stripUnknownLines(base.Dumps[fi])); d != "" {
+				bad("messages-differ", "options %s change file #%d of the chain: %s", on, fi+1, d)
+				return vs
+			}
+			check := func(name string, optOn bool, want map[string]int) {
+				got, sorted, ok := parseCountList(strings.TrimPrefix(findLine(r.Dumps[fi], name+"="), name+"="))
+				if !ok {
+					bad(name+"/unparsable", "file #%d", fi+1)
+					return
+				}
+				if !optOn {
+					if len(got) != 0 {
+						bad(name+"/reported-with-option-off", "file #%d reports %v", fi+1, got)
+					}
+					return
+				}
+				if !sorted {
+					bad(name+"/not-sorted", "file #%d", fi+1)
+				}
+				keys := map[string]bool{}
+				for k := range got {
+					keys[k] = true
+				}
+				for k := range want {
+					keys[k] = true
+				}
+				for k := range keys {
+					if got[k] != want[k] {
+						bad(name+"/count", "file #%d of the chain: key %s reported %d, this file alone has %d (options %s)", fi+1, k, got[k], want[k], on)
+						return
+					}
+				}
+				st.Probe("lists checked per file of a chain")
+			}
+			wantUM, wantUF := map[string]int{}, map[string]int{}
+			for g, c := range models[fi].UnknownMsgs {
+				wantUM[fmt.Sprint([]uint64{uint64(g)})] = c
+			}
+			for k, c := range models[fi].UnknownFlds {
+				wantUF[fmt.Sprint([]uint64{uint64(k.M), uint64(k.F)})] = c
+			}
+			check("UnknownMessages", hasOpt(&sc.Tasks[i], "unknownMessages"), wantUM)
+			check("UnknownFields", hasOpt(&sc.Tasks[i], "unknownFields"), wantUF)
+			if len(vs) > 0 {
+				return vs
+			}
+		}
+	}
+	return vs
+}
